@@ -46,6 +46,16 @@ def run (op : String) (a : Json) : Option (Except String Json) :=
         | .ok vs, .ok t => ok (jObj [("values", jList jVal vs), ("tree", jTree t)])
         | .ok vs, .error e => ok (jObj [("values", jList jVal vs), ("tree", jErr e)])
         | .error e, _ => jErr e
+  | "c11.roundtrip" => some do
+      let Γ ← dCtx (field a "ctx")
+      let v ← dVal (field a "value")
+      let c ← dStr (field a "clazz")
+      pure <| match (generate benv Γ {} v).bind (eventsTreeQ (isDatatype Γ)) with
+        | .error e => jErr e
+        | .ok t =>
+          match parseRoot benv Γ (dCfg (field a "config")) c t with
+          | .ok (v', w) => ok (jObj [("value", jVal v'), ("warnings", jNat w)])
+          | .error e => jErr e
   | "c11.norm" => some do
       let t ← dTree (field a "tree")
       pure <| ok (jTree (normTree tblEnv [] t))
